@@ -12,6 +12,7 @@ import (
 	"os"
 	"runtime"
 	"strconv"
+	"strings"
 
 	"github.com/consensys/gnark/constraint"
 	"github.com/consensys/gnark/logger"
@@ -29,6 +30,33 @@ func main() {
 	b, _ := strconv.Atoi(os.Args[4])
 	out := map[string]any{"what": what, "mode": mode, "d": d, "b": b, "gomaxprocs": runtime.GOMAXPROCS(0)}
 	var digests []string
+	if what == "buildseq" {
+		// several dimensions compiled one after the other in ONE process (os.Args[5] = "d,b;d,b;...")
+		for _, pair := range strings.Split(os.Args[5], ";") {
+			var dd, bb int
+			fmt.Sscanf(pair, "%d,%d", &dd, &bb)
+			var ccs constraint.ConstraintSystem
+			var err error
+			if mode == "insertion" {
+				ccs, err = prover.BuildR1CSInsertion(uint32(dd), uint32(bb))
+			} else {
+				ccs, err = prover.BuildR1CSDeletion(uint32(dd), uint32(bb))
+			}
+			if err != nil {
+				digests = append(digests, "error: "+err.Error())
+				continue
+			}
+			h := sha256.New()
+			ccs.WriteTo(h)
+			digests = append(digests, hex.EncodeToString(h.Sum(nil)))
+		}
+		out["digests"] = digests
+		it, mb, on := runtime.VerifMapStats()
+		out["map_iterations"], out["map_max_B"], out["seed_on"] = it, mb, on
+		js, _ := json.Marshal(out)
+		fmt.Println(string(js))
+		return
+	}
 	reps := 1
 	if what == "build3" || what == "lean3" {
 		reps = 3
